@@ -11,6 +11,7 @@ import (
 	"go/types"
 	"os"
 	"strings"
+	"time"
 
 	"golang.org/x/tools/go/ssa"
 )
@@ -119,6 +120,7 @@ type Machine struct {
 	lastFn       *ssa.Function
 	lastFrame    *frame
 	opaqueFmt    int
+	lastTimeCheck int64
 }
 
 type nondetVar struct {
@@ -349,7 +351,8 @@ func (m *Machine) callSSA(caller *frame, fn *ssa.Function, args []Value, env []V
 		if m.tolerant > 0 {
 			return zeroResults(fn.Signature)
 		}
-		m.unsupported("no code and no model for function %s", fi.name)
+		m.lastFrame = caller
+		m.unsupported("no code and no model for function %s (called from %s)", fi.name, m.targetStack())
 	}
 	if fn.Pkg != nil && m.inited[fn.Pkg] == 0 && fn.Name() != "init" {
 		m.ensureInit(fn.Pkg)
@@ -449,6 +452,12 @@ func (m *Machine) runFrame(fr *frame) {
 			}
 		}
 		m.instrs += int64(len(instrs))
+		if m.instrs-m.lastTimeCheck > 2_000_000 {
+			m.lastTimeCheck = m.instrs
+			if !m.cfg.Deadline.IsZero() && time.Now().After(m.cfg.Deadline.Add(20*time.Second)) {
+				panic(pathEnd{kind: "budget", msg: "wall-clock budget exhausted inside a path"})
+			}
+		}
 		if m.instrs > m.cfg.MaxInstrs {
 			panic(pathEnd{kind: "budget", msg: fmt.Sprintf("instruction budget %d exhausted in %s", m.cfg.MaxInstrs, fr.fn)})
 		}
